@@ -286,6 +286,48 @@ proof fn lemma_group_zero(s: Seq<u8>, pos: int, g: (u8, u32))
 }
 //@use cursor.fns ::nulbytestr_read
 //@use cursor.fns ::nulbytestr_word
+// the value of byte k of a bit sequence, and the C string a bit sequence starts with: the bytes before the first zero
+// byte (or all whole bytes), each as the character with that code (Latin-1)
+spec fn byte_val(v: Seq<bool>, k: int) -> u8 {
+    pack8(v[8 * k], v[8 * k + 1], v[8 * k + 2], v[8 * k + 3], v[8 * k + 4], v[8 * k + 5], v[8 * k + 6], v[8 * k + 7])
+}
+spec fn cstr_of(v: Seq<bool>, i: int) -> Seq<char>
+    decreases (if v.len() - 8 * i > 0 { v.len() - 8 * i } else { 0 })
+{
+    if i < 0 || 8 * i + 8 > v.len() || byte_zero(v, i) { Seq::empty() } else { seq![byte_val(v, i) as char] + cstr_of(v, i + 1) }
+}
+// scanning from byte i takes at least up to i
+proof fn lemma_nul_scan_ge(v: Seq<bool>, i: int)
+    requires i >= 0
+    ensures nul_scan(v, i) >= i, nul_scan(v, i) == i ==> 8 * i >= v.len()
+    decreases (if v.len() - 8 * i > 0 { v.len() - 8 * i } else { 0 })
+{
+    if 8 * i < v.len() && !byte_zero(v, i) { lemma_nul_scan_ge(v, i + 1); }
+}
+// a full group IS the byte value of its eight bits
+proof fn lemma_group_byte(s: Seq<u8>, pos: int, g: (u8, u32), v: Seq<bool>, k: int)
+    requires
+        is_group(s, pos, 8, g),
+        v[8 * k] == bit_at(s, pos), v[8 * k + 1] == bit_at(s, pos + 1), v[8 * k + 2] == bit_at(s, pos + 2), v[8 * k + 3] == bit_at(s, pos + 3),
+        v[8 * k + 4] == bit_at(s, pos + 4), v[8 * k + 5] == bit_at(s, pos + 5), v[8 * k + 6] == bit_at(s, pos + 6), v[8 * k + 7] == bit_at(s, pos + 7),
+    ensures g.0 == byte_val(v, k)
+{
+    let x = g.0;
+    let w = byte_val(v, k);
+    lemma_pack8(v[8 * k], v[8 * k + 1], v[8 * k + 2], v[8 * k + 3], v[8 * k + 4], v[8 * k + 5], v[8 * k + 6], v[8 * k + 7]);
+    assert(field_bit(x, 8, 0) == bit_at(s, pos + 0)); assert(field_bit(x, 8, 1) == bit_at(s, pos + 1));
+    assert(field_bit(x, 8, 2) == bit_at(s, pos + 2)); assert(field_bit(x, 8, 3) == bit_at(s, pos + 3));
+    assert(field_bit(x, 8, 4) == bit_at(s, pos + 4)); assert(field_bit(x, 8, 5) == bit_at(s, pos + 5));
+    assert(field_bit(x, 8, 6) == bit_at(s, pos + 6)); assert(field_bit(x, 8, 7) == bit_at(s, pos + 7));
+    assert(forall|a: u8, i: u8| i < 8 ==> #[trigger] ((a >> i) & 1u8) <= 1u8) by (bit_vector);
+    lemma_low_bits_determine(x, w);
+}
+pub assume_specification [ String::with_capacity ] (n: usize) -> (r: String)
+    ensures r@ == Seq::<char>::empty();
+// char::from_u32: every code below the surrogate range is a character (ASSUMED std)
+pub assume_specification [ char::from_u32 ] (i: u32) -> (r: Option<char>)
+    ensures i < 0xD800 ==> r is Some && r->0 as u32 == i;
+//@use cursor.fns ::cstr_word
 
 // ================= text encodings (C18): base32 / base32hex / base64 / zero85 words =================
 // The three codec crates are dependencies: stand-ins with ASSUMED contracts.  The round-trip law
@@ -430,6 +472,26 @@ fn lemma_zero85_pair(xs: &mut State)
     }
 }
 
+// the other words of the word table (Rword + same_as)
+//@use words.fns ::load#w_open_bitstr
+//@use words.fns ::load#w_close_bitstr
+//@use words.fns ::load#w__tob
+//@use words.fns ::load#w__tokb
+//@use words.fns ::load#w__tomb
+//@use words.fns ::load#w_seek
+//@use words.fns ::load#w_remain
+//@use words.fns ::load#w_find
+//@use words.fns ::load#w_bits
+//@use words.fns ::load#w_bytes
+//@use words.fns ::load#w_bitstr_len
+//@use words.fns ::load#w_bitstr_append
+//@use words.fns ::load#w_bitstr_not
+//@use words.fns ::load#w_bitstr_tohex
+//@use words.fns ::load#w__tobitstr
+//@use words.fns ::load#w_magic
+//@use words.fns ::load#w_emit
+//@use words.fns ::load#w_nulbytestr
+//@use words.fns ::load#w_cstr
 // the data words of the word table (Rword)
 //@use words.fns ::load#w_u8
 //@use words.fns ::load#w_u8_bang
